@@ -67,7 +67,7 @@ var profiles = map[string]*Profile{
 		W:         map[string]int{"xfer": 6, "ktx": 7, "mine": 4, "foreign": 4, "fork": 5, "walk": 4, "reopen": 1, "sync": 2, "xfer-bad": 1, "xfer-hold": 1, "submit-held": 1, "badblock": 2, "fault": 2, "mine-auto-stale": 2},
 		EndChecks: []string{"sync", "obs", "replica", "walk 0", "replica", "sync", "replica"}},
 	"C02": {Name: "amounts", Steps: 30, Fee: []bool{true}, Windows: []int64{0},
-		W:         map[string]int{"xfer": 10, "xfer-bad": 4, "mine": 4, "foreign": 3, "fork": 3, "walk": 3, "sync": 2, "resubmit": 1, "xfer-hold": 3, "submit-held": 3, "mine-auto": 2, "balrace": 3, "badblock": 3, "fault": 2},
+		W:         map[string]int{"xfer": 10, "xfer-bad": 4, "mine": 4, "foreign": 3, "fork": 3, "walk": 3, "sync": 2, "resubmit": 1, "xfer-hold": 3, "submit-held": 3, "mine-auto": 2, "balrace": 3, "badblock": 3, "fault": 2, "reopen": 2},
 		EndChecks: []string{"sync", "obs"}},
 	"C03": {Name: "conflicts", Steps: 36, Fee: []bool{false, true}, Windows: []int64{0},
 		W: map[string]int{"xfer": 5, "xfer-bad": 4, "resubmit": 3, "ktx": 5, "ktx-two": 5, "ktx-old": 3, "mine": 3, "foreign": 5, "fork": 3,
